@@ -25,7 +25,8 @@ ASSUMPTIONS = ['pandas: boolean-mask selection keeps the rows whose mask is True
                'times of day it is indexer_between_time (both ends included), with one it raises and the masks are used; '
                'concat(axis=1) is an outer join on the union index; concat(axis=0) pads missing columns with NaN; sort_index is a stable sort',
                'single slices: any row order (increasing, decreasing, shuffled, a repeated stamp); stitching: series with strictly increasing '
-               'duplicate-free indexes; lists hold series (not frames, not scalars); bound lists hold dates only',
+               'duplicate-free indexes; list members are Series, DataFrames (columns 0..w-1) or integer / NaN scalars; bound lists hold dates or '
+               'times of day (a scalar beside a time-of-day list raises in the code: only n = 1 is generated, error kind Other)',
                'a Series and a one-column DataFrame with the same rows are not distinguished']
 
 D0 = datetime.datetime(2020, 1, 1)
@@ -753,6 +754,72 @@ def laws(rng, tier, ctx):
             continue
         if proto.canon(proto.parse(enc_frame(g))) != got:
             yield Finding('violation', case, 're-stitched frame %s differs from %s' % (enc_frame(g), enc_frame(f)))
+    # --- the new input classes, checked on the implementation alone
+    TL = [datetime.time(h) for h in (0, 3, 6, 9, 12, 15, 18, 21)]
+    m3 = 120 if tier == 'quick' else 2000
+    for _ in range(m3):
+        # bound lists of times of day (both lists: a window whose start is later than its end wraps), n = 1
+        m = rng.choice([2, 2, 3])
+        dfs = [rand_series6(rng) for _ in range(m)]
+        lb, ub = sorted(rng.choice(TL) for _ in range(m)), sorted(rng.choice(TL) for _ in range(m))
+        oc = rng.choice(BR)
+        count += 1
+        case = dict(tag='law-tod-lists', lines=[stitchm_line([('s', p) for p in dfs], lb, ub, oc, 1)])
+        ss = [pd.Series([float(v) for _, v in p], pd.DatetimeIndex([t for t, _ in p]), dtype=float) for p in dfs]
+        try:
+            f = df_slice(ss, lb, ub, oc)
+        except Exception as e:
+            yield Finding('violation', case, 'df_slice raised %s' % type(e).__name__)
+            continue
+        want = [(t, [v]) for p, a, b in zip(dfs, lb, ub) for t, v in p if py_in(t, a, b, oc)]
+        if proto.canon(proto.parse(enc_frame(f))) != proto.canon(proto.parse(enc_frame_rows(1, want))):
+            yield Finding('violation', case, 'stitched %s, the time-of-day windows prescribe %s' % (enc_frame(f), enc_frame_rows(1, want)))
+    for _ in range(m3):
+        # one series, a list of upper bounds: one slice per bound; both bounds as lists: the slices concatenated
+        pairs = rand_series12(rng)
+        q = rng.choice([2, 3, 4])
+        ub = sorted(rng.choice(DB) for _ in range(q))
+        oc = rng.choice(BR)
+        both = rng.random() < 0.5
+        lb = ([rng.choice([None, DB[0]])] + ub[:-1]) if both else rng.choice([None, DB[1], DB[5]])
+        count += 1
+        case = dict(tag='law-slices', lines=[slices_line(pairs, lb, ub, oc)])
+        s = pd.Series([np.nan if v is None else float(v) for _, v in pairs], pd.DatetimeIndex([t for t, _ in pairs]), dtype=float)
+        try:
+            r = df_slice(s, lb, ub, oc)
+        except Exception as e:
+            yield Finding('violation', case, 'df_slice raised %s' % type(e).__name__)
+            continue
+        pieces = [[(t, v) for t, v in pairs if (py_in(t, a, b, oc) if pairs else True)] for a, b in zip(lb if both else [lb] * q, ub)]
+
+        def rows(x):
+            return [(pd.Timestamp(t).to_pydatetime(), None if v != v else int(v)) for t, v in zip(x.index, x.values)]
+        if both:
+            got, want = rows(r) if isinstance(r, pd.Series) else None, [x for p in pieces for x in p]
+        else:
+            got, want = [rows(x) for x in r] if isinstance(r, list) else None, pieces
+        if got != want:
+            yield Finding('violation', case, 'slices %s, the bounds prescribe %s' % (got, want))
+    for _ in range(m3):
+        # lists holding DataFrames and scalars, n = 1: piece i is member i cut to (ub[i-1], ub[i]]; a scalar is constant on the bounds
+        m = rng.choice([2, 3, 3])
+        ms = [rand_member(rng) for _ in range(m)]
+        ubi = rand_bounds(rng, m, strict=True)
+        ub = [day(b) for b in ubi]
+        count += 1
+        case = dict(tag='law-members', lines=[stitchm_line(ms, None, ub, '(]', 1)])
+        try:
+            f = df_slice([dec_member(proto.parse(enc_member(x))) for x in ms], ub=ub)
+        except Exception as e:
+            yield Finding('violation', case, 'df_slice raised %s' % type(e).__name__)
+            continue
+        w = max(x[1] if x[0] == 'f' else 1 for x in ms)
+        want = []
+        for i, x in enumerate(ms):
+            rws = [(t, [v]) for t, v in x[1]] if x[0] == 's' else x[2] if x[0] == 'f' else [(b, [x[1]]) for b in ub]
+            want += [(t, vs + [None] * (w - len(vs))) for t, vs in rws if (i == 0 or t > ub[i - 1]) and t <= ub[i]]
+        if proto.canon(proto.parse(enc_frame(f))) != proto.canon(proto.parse(enc_frame_rows(w, want))):
+            yield Finding('violation', case, 'stitched %s, the bounds prescribe %s' % (enc_frame(f), enc_frame_rows(w, want)))
     yield count
 
 
